@@ -8,19 +8,20 @@ EXTENDS PrecOps, Json, CSV, IOUtils
 CONSTANTS K,          \* maximal number of operators in the outer chain
           MaxSpecial, \* maximal number of operands that are not a plain reference
           OpsUsed,    \* operator spellings used in the outer chain
-          SubOps      \* operator spellings used inside parentheses
+          SubOps,     \* operator spellings used inside parentheses
+          Nest        \* nesting depths of a parenthesised operand: 2 = ((...)) directly doubled
 
 VARIABLES chain, tree, special
 vars == <<chain, tree, special>>
 
 CaseFile == IOEnv.CASE_FILE
 
-SubChains == {<<o>> : o \in SubOps} \cup {<<o1, o2>> : o1 \in SubOps, o2 \in SubOps}
+SubChains == {<<>>} \cup {<<o>> : o \in SubOps} \cup {<<o1, o2>> : o1 \in SubOps, o2 \in SubOps}
 Operands(i) == {[f |-> "ref", i |-> i]}
                \cup (IF MaxSpecial = 0 THEN {} ELSE
                      {[f |-> "neg", i |-> i], [f |-> "pos", i |-> i]}
-                     \cup {[f |-> "par", i |-> i, sub |-> s] : s \in SubChains}
-                     \cup {[f |-> "npar", i |-> i, sub |-> s] : s \in SubChains})
+                     \cup {[f |-> "par", i |-> i, sub |-> s, d |-> d] : s \in SubChains, d \in Nest}
+                     \cup {[f |-> "npar", i |-> i, sub |-> s, d |-> d] : s \in SubChains, d \in Nest})
 IsSpecial(x) == x.f # "ref"
 
 Emit(c) == CSVWrite("%1$s", <<ToJson([toks |-> ChainToks(c), want |-> RefTree(c),
